@@ -162,4 +162,185 @@ theorem decInt_encInt (n : Int) (h1 : -2^31 ≤ n) (h2 : n < 2^31) (rest : Bytes
   rw [if_pos]
   constructor <;> omega
 
+
+
+theorem zag_bit (z : BitVec 64) (i : Nat) (h : i + 1 < 64) :
+    (zagBV z)[i] = (z[i+1] ^^ z[0]) := by
+  unfold zagBV
+  by_cases h0 : z[0] = false
+  · have hc : z &&& 1#64 = 0#64 := (and_one_eq_zero_iff z).mpr h0
+    rw [if_pos hc]
+    have h1 : 1 + i < 64 := by omega
+    simp [h0, BitVec.getLsbD_eq_getElem h, Nat.add_comm 1 i, h]
+  · have h0' : z[0] = true := by simpa using h0
+    have hc : ¬ (z &&& 1#64 = 0#64) := by rw [and_one_eq_zero_iff, h0']; simp
+    rw [if_neg hc]
+    simp [h0', BitVec.getLsbD_eq_getElem h, Nat.add_comm 1 i, h]
+
+theorem zag_msb (z : BitVec 64) : (zagBV z).msb = z[0] := by
+  unfold zagBV
+  by_cases h0 : z[0] = false
+  · have hc : z &&& 1#64 = 0#64 := (and_one_eq_zero_iff z).mpr h0
+    rw [if_pos hc]
+    simp [BitVec.msb_eq_getLsbD_last, h0]
+  · have h0' : z[0] = true := by simpa using h0
+    have hc : ¬ (z &&& 1#64 = 0#64) := by rw [and_one_eq_zero_iff, h0']; simp
+    rw [if_neg hc]
+    simp [BitVec.msb_eq_getLsbD_last, h0']
+
+theorem zig_zag_bv (z : BitVec 64) : zigBV (zagBV z) = z := by
+  ext i hi
+  cases i with
+  | zero => rw [zig_bit0, zag_msb]
+  | succ k =>
+    rw [zig_bit_succ _ k hi, zag_bit z k hi, zag_msb]
+    cases z[k+1] <;> cases z[0] <;> rfl
+
+theorem zig_zag (z : Nat) (h : z < 2^64) : zig (zag z) = z := by
+  unfold zig zag
+  rw [BitVec.ofInt_toInt, zig_zag_bv, BitVec.toNat_ofNat]
+  exact Nat.mod_eq_of_lt h
+
+
+theorem decodeVarAux_bound (fuel : Nat) :
+    ∀ (j acc : Nat) (bs : Bytes) (z : Nat) (r : Bytes),
+      decodeVarAux fuel j acc bs = .ok (z, r) → acc < 2^(7*j) →
+      ∃ k, 1 ≤ k ∧ k ≤ fuel ∧ bs.length = k + r.length ∧ z < 2^(7*(j+k)) ∧ z < 2^64 := by
+  induction fuel with
+  | zero => intro j acc bs z r h; simp [decodeVarAux] at h
+  | succ fuel ih =>
+    intro j acc bs z r h hacc
+    cases bs with
+    | nil => simp [decodeVarAux] at h
+    | cons b rest =>
+      simp only [decodeVarAux] at h
+      have hd : b.toNat % 128 < 128 := Nat.mod_lt _ (by omega)
+      have hacc' : acc + b.toNat % 128 * 2^(7*j) < 2^(7*(j+1)) := by
+        have : (b.toNat % 128 + 1) * 2^(7*j) ≤ 128 * 2^(7*j) := Nat.mul_le_mul_right _ hd
+        rw [Nat.add_mul] at this
+        have e : 2^(7*(j+1)) = 128 * 2^(7*j) := by rw [Nat.mul_add, Nat.pow_add]; omega
+        omega
+      rw [and_7f, or_shift acc _ j hacc] at h
+      have hmod : (acc + b.toNat % 128 * 2^(7*j)) % 2^64 < 2^(7*(j+1)) :=
+        Nat.lt_of_le_of_lt (Nat.mod_le _ _) hacc'
+      have hlt64 : (acc + b.toNat % 128 * 2^(7*j)) % 2^64 < 2^64 := Nat.mod_lt _ (by omega)
+      split at h
+      · cases h
+        exact ⟨1, by omega, by omega, by simp; omega, hmod, hlt64⟩
+      · obtain ⟨k, hk1, hk2, hlen, hz, hz64⟩ := ih (j+1) _ rest z r h hmod
+        refine ⟨k+1, by omega, by omega, by simp; omega, ?_, hz64⟩
+        have : j + 1 + k = j + (k + 1) := by omega
+        rw [← this]; exact hz
+
+theorem encodeVarAux_len (fuel : Nat) :
+    ∀ (k z : Nat), 1 ≤ k → k ≤ fuel → z < 2^(7*k) → (encodeVarAux fuel z).length ≤ k := by
+  induction fuel with
+  | zero => intro k z h1 h2; omega
+  | succ fuel ih =>
+    intro k z h1 h2 hz
+    unfold encodeVarAux
+    by_cases hle : z ≤ 0x7F
+    · rw [if_pos hle]; simp; omega
+    · rw [if_neg hle]
+      have hk2 : 2 ≤ k := by
+        by_cases h : 2 ≤ k
+        · exact h
+        · have : k = 1 := by omega
+          subst this; simp at hz; omega
+      have hz' : z >>> 7 < 2^(7*(k-1)) := by
+        rw [Nat.shiftRight_eq_div_pow]
+        have e : 2^(7*k) = 2^7 * 2^(7*(k-1)) := by rw [← Nat.pow_add]; congr 1; omega
+        rw [e] at hz
+        exact Nat.div_lt_of_lt_mul hz
+      have := ih (k-1) (z >>> 7) (by omega) (by omega) hz'
+      simp; omega
+
+theorem encLong_minimal (bs : Bytes) (n : Int) (r : Bytes) (h : decLong bs = .ok (n, r)) :
+    (encLong n).length + r.length ≤ bs.length := by
+  unfold decLong at h
+  cases hd : decodeVar bs with
+  | error e => rw [hd] at h; cases h
+  | ok p =>
+    obtain ⟨z, r'⟩ := p
+    rw [hd] at h
+    simp at h
+    obtain ⟨hn, hr⟩ := h
+    subst hn; subst hr
+    unfold decodeVar at hd
+    obtain ⟨k, hk1, hk2, hlen, hz, hz64⟩ := decodeVarAux_bound 10 0 0 bs z r' hd (by simp)
+    unfold encLong encodeVar
+    rw [zig_zag z hz64]
+    have := encodeVarAux_len 10 k z hk1 hk2 (by simpa using hz)
+    omega
+
+
+
+theorem encodeVarAux_len_pos (fuel z : Nat) (h : 0 < fuel) : 1 ≤ (encodeVarAux fuel z).length := by
+  cases fuel with
+  | zero => omega
+  | succ f => unfold encodeVarAux; split <;> simp
+
+theorem encodeVarAux_lt (fuel : Nat) :
+    ∀ (k z : Nat), 1 ≤ k → (encodeVarAux fuel z).length ≤ k → 0 < fuel → z < 2^(7*fuel) → z < 2^(7*k) := by
+  induction fuel with
+  | zero => intro k z _ _ h; omega
+  | succ fuel ih =>
+    intro k z hk hlen _ hz
+    unfold encodeVarAux at hlen
+    by_cases hle : z ≤ 0x7F
+    · have : (2:Nat)^7 ≤ 2^(7*k) := Nat.pow_le_pow_right (by omega) (by omega)
+      omega
+    · rw [if_neg hle] at hlen
+      simp at hlen
+      have hz' : z >>> 7 < 2^(7*fuel) := by
+        rw [Nat.shiftRight_eq_div_pow]
+        have e : 2^(7*(fuel+1)) = 2^7 * 2^(7*fuel) := by rw [← Nat.pow_add]; congr 1; omega
+        rw [e] at hz
+        exact Nat.div_lt_of_lt_mul hz
+      have hf : 0 < fuel := by
+        cases fuel with
+        | zero => simp at hz'; rw [Nat.shiftRight_eq_div_pow] at hz'; omega
+        | succ f => omega
+      have hpos := encodeVarAux_len_pos fuel (z >>> 7) hf
+      have hk2 : 2 ≤ k := by omega
+      have := ih (k-1) (z >>> 7) (by omega) (by omega) hf hz'
+      rw [Nat.shiftRight_eq_div_pow] at this
+      have e : 2^(7*k) = 2^7 * 2^(7*(k-1)) := by rw [← Nat.pow_add]; congr 1; omega
+      rw [e]
+      have := Nat.div_add_mod z (2^7)
+      have hm : z % 2^7 < 2^7 := Nat.mod_lt _ (by decide)
+      have : z < 2^7 * (z / 2^7 + 1) := by rw [Nat.mul_add]; omega
+      exact Nat.lt_of_lt_of_le this (Nat.mul_le_mul_left _ (by omega))
+
+theorem encodeVar_len_mono (a b : Nat) (hab : a ≤ b) (hb : b < 2^64) :
+    (encodeVar a).length ≤ (encodeVar b).length := by
+  unfold encodeVar
+  have hpos := encodeVarAux_len_pos 10 b (by omega)
+  have hb70 : b < 2^(7*10) := Nat.lt_of_lt_of_le hb (by decide)
+  have hk10 : (encodeVarAux 10 b).length ≤ 10 := encodeVarAux_len 10 10 b (by omega) (by omega) hb70
+  have := encodeVarAux_lt 10 _ b hpos (Nat.le_refl _) (by omega) hb70
+  exact encodeVarAux_len 10 _ a hpos hk10 (by omega)
+
+theorem zig_nonneg (n : Nat) (h : n < 2^63) : zig (n : Int) = 2 * n := by
+  unfold zig zigBV
+  rw [BitVec.ofInt_natCast]
+  have hm : (BitVec.ofNat 64 n).msb = false := by
+    rw [BitVec.msb_eq_decide]
+    simp [BitVec.toNat_ofNat]
+    omega
+  rw [BitVec.sshiftRight_eq_of_msb_false hm]
+  have hz : (BitVec.ofNat 64 n) >>> 63 = 0#64 := by
+    apply BitVec.eq_of_toNat_eq
+    simp [BitVec.toNat_ofNat, Nat.shiftRight_eq_div_pow]
+    omega
+  rw [hz]
+  simp [BitVec.toNat_ofNat, Nat.shiftLeft_eq]
+  omega
+
+theorem encLong_len_mono (a b : Nat) (hab : a ≤ b) (hb : b < 2^63) :
+    (encLong (a : Int)).length ≤ (encLong (b : Int)).length := by
+  unfold encLong
+  rw [zig_nonneg a (by omega), zig_nonneg b hb]
+  exact encodeVar_len_mono _ _ (by omega) (by omega)
+
 end Avro
